@@ -236,6 +236,50 @@ fn run(ctx: &RunCtx) -> Report {
             report.probe("every_server_queried_checks", 1);
         }
     }
+    // 4b. promotion: adaptive nodes ("clients" here are nodes built without server_mode()) that are reachable
+    //    switch to server mode at their first 15-minute refresh. From then on they are joined servers like
+    //    any other: some other node's table holds them, and (<= 20 servers, private plan) a lookup from
+    //    another node queries them. Judged for nodes whose snapshot showed server mode 40 s before the check.
+    let mut prng = Rng::new(crate::rng::key(ctx.seed, &[crate::rng::tag("c13-promotion")]));
+    if report.violation.is_none() && !large && !slow_links && !net.clients.is_empty() && all.len() <= 20 && prng.chance(1, 3) {
+        let margin = if plan.skew { 17 * 60 } else { 15 * 60 + 20 };
+        sim.run_until(net.joined_at + margin * SEC + prng.range(0, 12 * 60) * SEC);
+        refresh_snapshots(&sim, &all);
+        let promoted: Vec<HostId> = net.clients.iter().copied().filter(|c| sim.alive(*c) && sim.snapshot(*c).map(|s| s.server_mode).unwrap_or(false)).collect();
+        sim.run_for(40 * SEC);
+        refresh_snapshots(&sim, &all);
+        report.probe("promotion_runs", 1);
+        report.probe("promoted_adaptive_nodes", promoted.len() as u64);
+        let g = knows_graph(&sim, &all);
+        for p in &promoted {
+            let holders = all.iter().filter(|h| **h != *p && g.get(*h).map(|s| s.contains(p)).unwrap_or(false)).count();
+            if holders == 0 {
+                report.violate("discoverability", "promoted-server-known-to-nobody", format!("{} switched from adaptive client to server mode at its 15-minute refresh, but more than 40 s later no other node's routing tables hold it; {what}", sim.node_addr(*p)));
+                break;
+            }
+        }
+        if report.violation.is_none() && !plan.public && !promoted.is_empty() && net.servers.len() + promoted.len() <= 20 {
+            let from = *prng.pick(&all);
+            let target = prng.id();
+            let t0 = sim.now();
+            let op = if prng.chance(1, 2) { sim.find_node(from, target) } else { sim.get_immutable(from, target) };
+            sim.run_ops(&[op], sim.now() + 120 * SEC);
+            let queried: BTreeSet<SocketAddrV4> = sim.with_trace(|tr| {
+                tr.iter()
+                    .filter(|d| d.from_host == Some(from) && d.t_send >= t0)
+                    .filter(|d| Krpc::parse(&d.bytes).map(|k| k.is_query() && k.target() == Some(target)).unwrap_or(false))
+                    .map(|d| d.dst)
+                    .collect()
+            });
+            for p in &promoted {
+                if *p != from && !queried.contains(&sim.node_addr(*p)) {
+                    report.violate("discoverability", "lookup-missed-a-promoted-server", format!("a lookup from {} queried {} addresses but not {} which had switched to server mode more than 40 s earlier ({} servers + {} promoted); {what}", sim.node_addr(from), queried.len(), sim.node_addr(*p), net.servers.len(), promoted.len()));
+                    break;
+                }
+            }
+            report.probe("promoted_server_lookup_checks", 1);
+        }
+    }
     // 5. a joiner whose bootstrap list is entirely dead reports not bootstrapped, and returns
     if report.violation.is_none() && rng.chance(1, 2) {
         let dead: Vec<SocketAddrV4> = (0..rng.usize(1, 3)).map(|i| SocketAddrV4::new(priv_ip(50_000 + i), 6881)).collect();
